@@ -161,7 +161,13 @@ func (x *Exec) evalSpec(env *SpecEnv, e Expr) Value {
 		for _, p := range e.Pats {
 			var pt []Term
 			for _, pe := range p {
-				pt = append(pt, asTerm(x.evalSpec(n, pe)))
+				pv := x.evalSpec(n, pe)
+				if sv, ok := pv.(SliceV); ok && strings.HasPrefix(sv.Ref.S, "(s-ref ") {
+					// a slice-valued pattern: use the heap term it was read from
+					pt = append(pt, Term{sv.Ref.S[7 : len(sv.Ref.S)-1], SSl})
+					continue
+				}
+				pt = append(pt, asTerm(pv))
 			}
 			pats = append(pats, pt)
 		}
